@@ -104,7 +104,7 @@ class Source:
         self.line_base = line_base
         self.masked = mask(text)
         # blank out #[cfg(test)] modules and items
-        for m in list(re.finditer(r'#\[cfg\(test\)\]', self.masked)):
+        for m in list(re.finditer(r'#\[cfg\((?:test|kani)\)\]', self.masked)):
             j = self.masked.find('{', m.end())
             k = self.masked.find(';', m.end())
             if j < 0 or (0 <= k < j):
